@@ -2315,7 +2315,8 @@ Proof.
   exists w'. split; [reflexivity|].
   assert (Hr : ring_of (w_h w') 1 (fuel_of w') = None).
   { vm_compute in E. inversion E; subst. vm_compute. reflexivity. }
-  split; [exact Hr|]. intros X' I'. rewrite (ring_of_spec w' X' false I') in Hr. discriminate.
+  split; [exact Hr|]. intros X' I'. pose proof (ring_of_spec w' X' false I') as Hs. cbn [qaddr] in Hs.
+  rewrite Hs in Hr. discriminate.
 Qed.
 
 (* a_que_swap as found (structure copy): the walk from A's head meets B's sentinel as if it were an element *)
@@ -2329,8 +2330,8 @@ Proof.
   exists w'. split; [reflexivity|].
   assert (Hr : ring_of (w_h w') 1 (fuel_of w') = Some [2]).
   { vm_compute in E. inversion E; subst. vm_compute. reflexivity. }
-  split; [exact Hr|]. intros X' I'. rewrite (ring_of_spec w' X' false I') in Hr. cbn [qaddr] in Hr.
-  inversion Hr as [Hs]. assert (3 <= 2).
-  { eapply (QInv_node_ge3 w' X' 2 I'). eapply (allnodes_sel w' X' false). rewrite Hs. left. reflexivity. }
+  split; [exact Hr|]. intros X' I'. pose proof (ring_of_spec w' X' false I') as Hs0. cbn [qaddr] in Hs0.
+  rewrite Hs0 in Hr. inversion Hr as [Hs]. assert (3 <= 2).
+  { eapply (QInv_node_ge3 w' X' 2 I'). eapply (allnodes_sel w' X' false). cbn [sel]. rewrite Hs. left. reflexivity. }
   lia.
 Qed.
